@@ -123,6 +123,28 @@ pub fn make_linked_list<'a>(vbar: bool, mut terms: Vec<Unifiable>) -> Unifiable 
 
 } // make_linked_list()
 
+/// Makes a Suiron list which holds exactly the given terms, in order.
+///
+/// Unlike [make_linked_list()](../s_linked_list/fn.make_linked_list.html),
+/// this function never splices a trailing list into the new list: every
+/// term, including a list or an empty list in the last position, becomes
+/// one element. It is used for lists which the inference engine builds
+/// from a sequence of elements (eg. the results of append() and include()).
+///
+/// # Arguments
+/// * vector of unifiable terms (the elements)
+/// # Return
+/// [SLinkedList](../unifiable/enum.Unifiable.html#variant.SLinkedList)
+pub fn make_list_of_elements(terms: Vec<Unifiable>) -> Unifiable {
+    let mut list = cons_node!(Nil, Nil, 0, false);  // empty list
+    let mut num = 0;
+    for term in terms.into_iter().rev() {
+        num += 1;
+        list = cons_node!(term, list, num, false);
+    }
+    return list;
+} // make_list_of_elements()
+
 /// Compares two characters. Checks for backslash escapes: \\
 ///
 /// If the character indexed in the vector of characters is the same as
@@ -477,7 +499,7 @@ pub fn filter(filter: &Unifiable,
             } // match
         } // while
 
-        let new_list = make_linked_list(false, filtered_terms);
+        let new_list = make_list_of_elements(filtered_terms);
         return Some(new_list);
     }
     return None;
